@@ -87,7 +87,8 @@ CLAIMS.update({
             "tables (C01_parse_partial: add_content stores a result or runs out of fuel; C01_reductions_typed: every action is applied to "
             "values of the types it expects and returns the type of its nonterminal -- a typed-stack invariant whose table-specific "
             "parts are finite checks computed by Coq over all 256 states and 210 productions); validation of grammar-shaped trees cannot "
-            "panic (C01_validation_total); one result per held file tagged with its id (C01_ids); one slot per id after any history "
+            "panic (C01_validation_total) and every tree the parser stores is grammar-shaped, so validating a stored tree cannot panic "
+            "(C01_parsed_tree_is_grammar_shaped, C01_parsed_tree_validates); one result per held file tagged with its id (C01_ids); one slot per id after any history "
             "(C01_slots); every position is a character boundary inside the text (C01_positions_partial). NOT proved: that the loops' fuel "
             "suffices (termination of the LR automaton); a run out of fuel is a correspondence failure. Also decided by running: exact "
             "parser model vs implementation on soups, mutated documents, Unicode injection, multi-file sets, histories, deep nesting and "
